@@ -392,7 +392,7 @@ fn c10_model(zone_name: &str, az: f32, tilt: f32, fsh: usize, cons: usize, mult:
 pub fn run10(ctx: &Ctx) -> i32 {
     let zones: Vec<&str> = match ctx.tier {
         // quick: zones that share the summer-severity digit within the same region (D3/B3, A3c/Alfa3c) and one that does not
-        Tier::Quick => vec!["D3", "B3", "A3c", "Alfa3c", "E1"],
+        Tier::Quick => vec!["D3", "B3", "C3", "A3c", "Alfa3c", "B3c", "E1", "D1", "A4", "B4", "Alfa1c", "D2c"],
         Tier::Thorough => ALL_ZONES.to_vec(),
     };
     let azs = az_alphabet();
